@@ -11,7 +11,9 @@ import (
 	"encoding/json"
 	"errors"
 	"fmt"
+	"runtime/debug"
 	"sort"
+	"strings"
 	"sync"
 	"time"
 
@@ -265,8 +267,8 @@ type Node struct {
 	Trace   *traceBuf
 	// Fresh: InitChain ran and nothing is committed yet; the genesis state lives only in
 	// BaseApp's finalize-block state, which the next FinalizeBlock reuses.
-	Fresh   bool
-	Tainted string // C15: set when the import already differed from the exporter in a recorded way
+	Fresh    bool
+	Tainted  string // C15: set when the import already differed from the exporter in a recorded way
 	JoinedAt int
 }
 
@@ -434,6 +436,7 @@ func (n *Node) finalizeReq(timeNs int64, txs [][]byte, salt string) *abci.Reques
 }
 
 type BlockResult struct {
+	PanicAt string // first frame of the module on the panicking stack
 	Resp    *abci.ResponseFinalizeBlock
 	Err     error
 	Panic   string
@@ -450,6 +453,7 @@ func (n *Node) Finalize(timeNs int64, txs [][]byte, oe string) (br BlockResult) 
 	defer func() {
 		if r := recover(); r != nil {
 			br.Panic = fmt.Sprint(r)
+			br.PanicAt = panicSite(string(debug.Stack()))
 		}
 		n.Rec.mu.Lock()
 		for _, c := range n.Rec.Calls {
@@ -621,3 +625,25 @@ func (n *Node) ApplyPre(idx int, fn func(ctx sdk.Context) error) (err error) {
 }
 
 var _ = collections.ErrNotFound
+
+// panicSite: the first x/fundraising frame (function and file:line) of a panic's stack.
+func panicSite(stack string) string {
+	lines := strings.Split(stack, "\n")
+	for i, ln := range lines {
+		if strings.Contains(ln, "tendermint/fundraising/x/fundraising") && !strings.HasPrefix(strings.TrimSpace(ln), "/") && i+1 < len(lines) {
+			fn := ln
+			if j := strings.Index(fn, "("); j > 0 {
+				fn = fn[:j]
+			}
+			if j := strings.LastIndex(fn, "/"); j >= 0 {
+				fn = fn[j+1:]
+			}
+			loc := strings.TrimSpace(lines[i+1])
+			if j := strings.Index(loc, " +"); j > 0 {
+				loc = loc[:j]
+			}
+			return fn + " @ " + loc
+		}
+	}
+	return ""
+}
